@@ -13,7 +13,8 @@ RULE = ('random op sequences (1–30 tensors; shapes incl. 0-d, empty and oversi
         'huge) on the real TorchDistributedCommunicator under simdist with 2–5 ranks and perturbed schedules; '
         'per-call issued all_reduce events compared exactly with the Lean state machine; every future compared '
         'with the unbucketed value computed in exact arithmetic; non-trivial = ≥3 tensors sharing a communicator '
-        'and ≥1 bucket holding ≥2 tensors')
+        'and ≥1 bucket holding ≥2 tensors'
+        "; raw payloads that are not multiples of the group size (the average carries exactly the per-tensor rounding); value stream: every member's result for every tensor compared exactly with the Lean value model KV.CommV (split / flatten / sum / unflatten)")
 TRUSTED = [
     'Lean 4.33 kernel; axioms audited ⊆ {propext, Classical.choice, Quot.sound}',
     'hand-written model KV.Comm (allreduceBucketed/flush/run) tied to kfac/distributed.py by this correspondence',
@@ -233,6 +234,68 @@ def run(ctx):
         if i < len(corpus):
             ctx.count('corpus')
     compare_events(ctx, pend, ctx.model.ask(lines))
+    value_stream(ctx)
+
+
+def value_stream(ctx):
+    """values through the real bucketed path vs the Lean value model KV.CommV (split / flatten / elementwise sum /
+    unflatten): one group, plain (non-symmetric, non-averaged) requests with integer payloads of mixed dtypes and sizes
+    incl. empty and over-capacity tensors, every member's result for every tensor compared exactly"""
+    from kfac.distributed import TorchDistributedCommunicator
+    rng = ctx.rng
+    lines, pend = [], []
+    for trial in range(ctx.budget(25, 250)):
+        world = rng.choice([2, 3, 4, 5])
+        members = sorted(rng.sample(range(world), rng.randrange(2, world + 1)))
+        cap = rng.choice([4, 8, 16, 24, 40, 64, 100, 10**6])
+        nt = rng.randrange(1, 9)
+        one = rng.choice([0, 0, 1, 2]) if rng.random() < 0.7 else None      # one dtype for all requests (model + oracle) or mixed (oracle)
+        reqs = [(one if one is not None else rng.choice([0, 0, 0, 2]), rng.choice([0, 1, 1, 2, 3, 5, 9])) for _ in range(nt)]   # (dtype tag, numel)
+
+        def data(rank, tid, n):
+            return [(tid + 1) * 10 + (rank + 1) * 3 + e for e in range(n)]      # sums stay below 2048: exact in float16
+
+        def prog(rank, members=members, cap=cap, reqs=reqs):
+            import torch.distributed as dist
+            g = dist.new_group(members)
+            if rank not in members:
+                return None
+            tdc = TorchDistributedCommunicator(bucket_cap_mb=(cap + 0.5) / 1e6)
+            futs = []
+            for tid, (dt, n) in enumerate(reqs):
+                t = torch.tensor(data(rank, tid, n), dtype=torch.float64).to(DT[dt]).reshape(n)
+                futs.append(tdc.allreduce_bucketed(t, group=g))
+            tdc.flush_allreduce_buckets()
+            return [[int(v) for v in (f.wait() if not isinstance(f, torch.Tensor) else f).to(torch.float64).tolist()] for f in futs]
+
+        wd, res = simdist.run_world(world, prog, seed=ctx.seed * 523 + trial, stickiness=rng.choice([0.0, 0.5, 0.9]))
+        case = {'world': world, 'group': members, 'cap_bytes': cap, 'requests(dtype,numel)': reqs, 'schedule_seed': ctx.seed * 523 + trial}
+        if wd.exceptions or wd.stalled or wd.errors:
+            ctx.fail(f'run failed: exc={wd.exceptions} stalled={wd.stalled} errors={wd.errors[:2]}', case, 'value-run')
+            continue
+        # the model takes ONE element size: requests of the 2-byte dtype count as half an element of the 4-byte one, so
+        # use cases in which all requests share the element size of their dtype tag (0: 4 bytes, 2: 2 bytes → scale)
+        if len({DT[dt] for dt, _ in reqs}) > 1:
+            ctx.count('value-mixed-dtypes(oracle only)')
+            mline = None
+        else:
+            es = torch.tensor([], dtype=DT[reqs[0][0]]).element_size()
+            mline = f'commv cap={cap} es={es} members=' + '|'.join(
+                ';'.join(f'{tid}:{dt}:' + (','.join(map(str, data(r, tid, n))) if n else '-') for tid, (dt, n) in enumerate(reqs))
+                for r in members)
+        for mi, r in enumerate(members):
+            want = [[sum(data(q, tid, n)[e] for q in members) for e in range(n)] for tid, (dt, n) in enumerate(reqs)]
+            if res[r] != want:
+                ctx.fail(f'rank {r}: bucketed all-reduce results differ from the per-tensor sums over {members}', case, 'value-oracle')
+                break
+            if mline is not None:
+                lines.append(mline + f' m={mi}')
+                pend.append((dict(case, rank=r), ';'.join(f'{tid}=' + (','.join(map(str, v)) if v else '-') for tid, v in enumerate(res[r]))))
+        ctx.evaluations += 1
+        ctx.case(('value', world, tuple(members), cap, tuple(reqs)), nontrivial=nt >= 3)
+        ctx.count('value-stream')
+    for (case, il), mo in zip(pend, ctx.model.ask(lines)):
+        ctx.compare('bucket-values', case, mo, il)
 
 
 def search(ctx):
